@@ -373,9 +373,11 @@ class EvolvableModule(nn.Module, metaclass=ModuleMeta):
         :type value: Any
         """
         # Add mutation methods to the network
+        replaced = False
         if isinstance(value, EvolvableModule):
             if name in self.__dict__["_modules"]:
                 self.filter_mutation_methods(name)
+                replaced = True
 
             layer_fns = []
             node_fns = []
@@ -393,6 +395,18 @@ class EvolvableModule(nn.Module, metaclass=ModuleMeta):
             self._node_mutation_methods += node_fns
 
         super().__setattr__(name, value)
+
+        if replaced:
+            # The nested mutation methods wrapped at construction are bound to the module
+            # that has just been replaced (e.g. by recreate_network): bind them to the new one
+            for mut_name, method in value.get_mutation_methods().items():
+                method_name = ".".join([name, mut_name])
+                if method_name in self.__dict__:
+                    object.__setattr__(
+                        self,
+                        method_name,
+                        _mutation_wrapper(self, method, method_name),
+                    )
 
     def __getattr__(self, name: str) -> Any:
         """Get attribute of the network. If the attribute is a mutation method, return the
